@@ -120,6 +120,12 @@ var semanticViolations = map[string]string{
 	"bad-include-extension":           "\ninclude \"other.txt\"\n",
 	"vendor-on-wildcard-ns":           "\nnamespace * zz.vendored (vendor=\"x\")\n",
 	"unknown-const-ref":               "\nconst i32 ZZ_BAD = NO_SUCH_CONST\n",
+	"unknown-default-ref":             "\nstruct ZzBad { 1: i32 a = NO_SUCH_CONST }\n",
+	"unknown-default-ref-in-list":     "\nstruct ZzBad { 1: list<i32> a = [1, NO_SUCH_CONST] }\n",
+	"unknown-enum-value-default":      "\nenum ZzE { A, B }\nstruct ZzBad { 1: ZzE e = ZzE.NOPE }\n",
+	"unknown-include-in-default":      "\nstruct ZzBad { 1: i32 a = nosuchinclude.LIMIT }\n",
+	"unknown-arg-default-ref":         "\nservice ZzSvc { void f(1: i32 a = NO_SUCH_CONST) }\n",
+	"unknown-const-ref-in-map":        "\nconst map<string, i32> ZZ_BAD = {\"a\": NO_SUCH_CONST}\n",
 	"bad-prefix-variable":             "\nscope ZzScope prefix foo.{} { A: i32 }\n",
 	"unterminated-struct":             "\nstruct ZzBad { 1: i32 a\n",
 	"unterminated-service":            "\nservice ZzSvc { void f()\n",
